@@ -57,7 +57,9 @@ template<class P> static void roundtrip_case(const std::string &name) { hx::run_
     ptree out; imp.get(out,""); std::vector<std::pair<std::string,std::string>> lo; leaves(out,"",lo); bool ok=lo.size()==lv.size(); std::string bad;
     for (auto &kv : lo) { std::string want=in.get<std::string>(kv.first,"<missing>"); if (!num_equal(want,kv.second)) { ok=false; if (bad.empty()) bad=kv.first+": imported "+want+" exported "+kv.second; } }
     hx::require("import followed by export is the identity on every value parameter (non-default values)", ok, bad); hx::count("non-default values round-tripped",changed);
-    { ptree extra=in; extra.put("bogus_key_xyz",1); unknown_params().clear(); P q(extra); hx::require("a key no component understands is reported through the unknown-parameter hook", unknown_params().count("bogus_key_xyz")==1); } }); }
+    { ptree extra=in; extra.put("bogus_key_xyz",1); unknown_params().clear(); P q(extra); hx::require("a key no component understands is reported through the unknown-parameter hook", unknown_params().count("bogus_key_xyz")==1); }
+    // an unknown SECTION (a key with children, e.g. a misspelled component section) is reported as well, not dropped with its whole subtree
+    { ptree extra=in; extra.put("bogus_section_xyz.type","ilu0"); extra.put("bogus_section_xyz.damping",0.5); unknown_params().clear(); P q(extra); hx::require("an unknown section (key with children) is reported through the unknown-parameter hook", unknown_params().count("bogus_section_xyz")==1); } }); }
 
 int main(int argc, char **argv) {
     hx::parse_args(argc,argv); bool T=hx::thorough(); hx::Rng rng(hx::args().seed);
